@@ -1394,12 +1394,50 @@ func (c *Check) genesisImportValidates(rule string) {
 			stP = fmt.Sprintf("P%d", i)
 		}
 	}
-	ok := false
-	for _, fa := range c.closeFacts(c.P.SummaryOf(ig).SuccessFacts) {
-		if !fa.Neg && fa.T.Op == "ok" && len(fa.T.A) == 1 && fa.T.A[0].Op == vg && len(fa.T.A[0].A) == 1 && stripAddr(fa.T.A[0].A[0]).IsAt(stP) {
-			ok = true
+	validated := func(fa Fact) bool {
+		if fa.Neg {
+			return false
+		}
+		t := fa.T
+		// ok(Validate(state)), or the error of Validate(state) compared with nil by a helper that panics otherwise
+		if t.Op == "==" && len(t.A) == 2 && t.A[1].IsAt("#nil") {
+			t = mk("ok", t.A[0])
+		}
+		return t.Op == "ok" && len(t.A) == 1 && t.A[0].Op == vg && len(t.A[0].A) == 1 && stripAddr(t.A[0].A[0]).IsAt(stP)
+	}
+	ok, nOK := true, 0
+	for _, pa := range c.P.PathsOf(ig) {
+		if !pa.OK() {
+			continue
+		}
+		nOK++
+		fs := pa.AllFacts()
+		// a helper without an error result that returned has established its success facts (it panics otherwise)
+		for _, ev := range pa.Events {
+			if ev.Kind != EvCall || ev.CI.fn == nil || !ev.CI.fn.isHandWritten() || ev.CI.fn.Body == nil {
+				continue
+			}
+			if _, hasErr := ev.CI.fn.hasErrorResult(); hasErr || ev.Result == nil {
+				continue
+			}
+			m := argMap(ev.CI.fn, ev.Result)
+			for _, sf := range c.P.SummaryOf(ev.CI.fn).SuccessFacts {
+				for _, nf := range sf.SubstAll(m) {
+					fs.Add(nf)
+				}
+			}
+		}
+		found := false
+		for _, fa := range c.closeFacts(fs) {
+			if validated(fa) {
+				found = true
+			}
+		}
+		if !found {
+			ok = false
 		}
 	}
+	ok = ok && nOK > 0
 	c.req(ok && stP != "", rule, ig.Name+"#validates-imported-state", ig.Body.Pos(), "every committed path of the genesis import has validated the imported state with "+vg)
 }
 
